@@ -513,7 +513,8 @@ fn c14_json(h: &RHistory, out: &mut Vec<Violation>) {
     let mut want = Bag::new();
     for e in &h.input {
         let el = format!(
-            "{}|{}{}|{}",
+            "{}|{}|{}{}|{}",
+            e.fpath.as_deref().map(|p| p.trim_start_matches('/')).unwrap_or_default(),
             e.feature.clone().unwrap_or_default(),
             e.rule.as_ref().map(|r| format!("{r} ")).unwrap_or_default(),
             e.scenario.clone().unwrap_or_default(),
@@ -543,7 +544,8 @@ fn c14_json(h: &RHistory, out: &mut Vec<Violation>) {
     for (i, e) in h.input.iter().enumerate() {
         let K::Log(msg) = &e.k else { continue };
         let el = format!(
-            "{}|{}{}|{}",
+            "{}|{}|{}{}|{}",
+            e.fpath.as_deref().map(|p| p.trim_start_matches('/')).unwrap_or_default(),
             e.feature.clone().unwrap_or_default(),
             e.rule.as_ref().map(|r| format!("{r} ")).unwrap_or_default(),
             e.scenario.clone().unwrap_or_default(),
@@ -579,7 +581,8 @@ fn c14_json(h: &RHistory, out: &mut Vec<Violation>) {
                 }
                 continue;
             }
-            let elk = format!("{fname}|{}|{}", s(el, "name"), el.get("line").and_then(serde_json::Value::as_u64).unwrap_or(0));
+            // (the feature's `uri` is part of every fact: elements filed under another, same-named feature differ)
+            let elk = format!("{}|{fname}|{}|{}", s(f, "uri").trim_start_matches('/'), s(el, "name"), el.get("line").and_then(serde_json::Value::as_u64).unwrap_or(0));
             let ty = s(el, "type");
             for st in el.get("steps").and_then(|x| x.as_array()).map(Vec::as_slice).unwrap_or(&[]) {
                 let res = st.get("result").cloned().unwrap_or_default();
